@@ -379,6 +379,12 @@ func interfaceValueAsSqlString(ctx *sql.Context, ti typeinfo.TypeInfo, value int
 		default:
 			return str, nil
 		}
+	case querypb.Type_BIT:
+		// |str| holds the raw bytes of the value, which are not a SQL literal
+		if v, ok := value.(uint64); ok {
+			return fmt.Sprintf("%d", v), nil
+		}
+		return hexEncodeBytes([]byte(str)), nil
 	case querypb.Type_TIME, querypb.Type_YEAR, querypb.Type_DATETIME, querypb.Type_TIMESTAMP, querypb.Type_DATE:
 		return singleQuote + str + singleQuote, nil
 	case querypb.Type_BINARY, querypb.Type_VARBINARY, querypb.Type_VECTOR:
